@@ -22,7 +22,8 @@ ASSUMPTIONS = ["mido's byte-level reading/writing is trusted", "both neighbours 
                "drift is checked for runs of up to 5000 events per track"]
 REQUIRED_FLAGS = ["tpb_not_24", "non_integer_position", "exact_tie", "note_off_as_note_on_velocity_0", "group_of_two_tracks",
                   "track_in_no_group", "meta_target_not_first", "overlap_across_tracks_fused", "long_run", "all_30_key_names",
-                  "meta_subset_excludes_grouped_track", "same_file_object_converted_twice", "stray_note_event_in_grouped_track"]
+                  "meta_subset_excludes_grouped_track", "same_file_object_converted_twice", "stray_note_event_in_grouped_track",
+                  "indices_as_numpy_integers"]
 
 TPBS = [24, 48, 96, 480, 10, 7, 36, 1000]
 DELTAS = [0, 1, 7, 10, 240]
@@ -98,6 +99,10 @@ def gen_cases(unit, ctx):
                 for meta in itertools.combinations(range(T), r):
                     for target in range(len(gs)):
                         yield {"kind": "G", "T": T, "shape": shape, "groups": gs, "meta": list(meta), "target": target}
+                        if shape == 0:
+                            for carrier in ("numpy", "tuple"):
+                                yield {"kind": "G", "T": T, "shape": shape, "groups": gs, "meta": list(meta), "target": target,
+                                       "carrier": carrier}
     elif kind == "H":
         # the SAME parsed file object converted several times (different groupings), as a caller comparing groupings does
         for word in ([7, 10, 1, 240, 7, 10], [1, 1, 1, 1, 1, 1, 1, 1], [10, 0, 7, 240, 1, 7, 10, 10, 7]):
@@ -282,8 +287,16 @@ def check_G(case, ctx, R):
         mf.tracks.append(write_track(evs))
         desc.append(notes)
     mf.save(path_of(ctx))
-    seqs = Sequence.sequences_load(path_of(ctx), track_indices=[list(g) for g in gs], meta_track_indices=list(meta),
-                                   target_meta_track_index=target)
+    carrier = case.get("carrier", "list")
+    if carrier == "numpy":          # indices as they come out of np.flatnonzero / np.arange
+        import numpy as np
+        ti, mi, tg = [[np.int64(i) for i in g] for g in gs], np.array(list(meta), dtype=np.int64), np.int64(target)
+        R.flags.append("indices_as_numpy_integers")
+    elif carrier == "tuple":
+        ti, mi, tg = tuple(tuple(g) for g in gs), tuple(meta), target
+    else:
+        ti, mi, tg = [list(g) for g in gs], list(meta), target
+    seqs = Sequence.sequences_load(path_of(ctx), track_indices=ti, meta_track_indices=mi, target_meta_track_index=tg)
     grouped = {i for g in gs for i in g}
     considered = grouped | set(meta)
     if T >= 2:
